@@ -559,6 +559,7 @@ type RespRec struct {
 	Controls []CtrlRec
 	IsEntry  bool
 	Raw      int // frame length
+	Bytes    []byte
 }
 
 func parseCtrl(t *TLV) (CtrlRec, error) {
@@ -678,7 +679,7 @@ func ParseResponse(frame []byte) (*RespRec, error) {
 	if !t.Kids[0].is(clsUniversal, false, 2) {
 		return nil, fmt.Errorf("messageID is %v", t.Kids[0])
 	}
-	r := &RespRec{Raw: len(frame)}
+	r := &RespRec{Raw: len(frame), Bytes: frame}
 	if r.MsgID, err = decInt(t.Kids[0].Val); err != nil {
 		return nil, err
 	}
@@ -734,6 +735,53 @@ func ParseResponse(frame []byte) (*RespRec, error) {
 		}
 	}
 	return r, nil
+}
+
+// GoLdapControls decodes the controls of a received frame with go-ldap's own
+// decoder: the independent LDAP client of C14. ok is false if go-ldap could not
+// decode them (it panics on some shapes it does not expect; that is go-ldap's
+// business, recorded as a probe only).
+func GoLdapControls(frame []byte) (recs []CtrlRec, ok bool, why string) {
+	defer func() {
+		if p := recover(); p != nil {
+			recs, ok, why = nil, false, fmt.Sprint("go-ldap panicked: ", p)
+		}
+	}()
+	pkt, err := ber.DecodePacketErr(frame)
+	if err != nil || len(pkt.Children) < 3 {
+		return nil, false, "no controls element"
+	}
+	for _, child := range pkt.Children[2].Children {
+		c, err := ldap.DecodeControl(child)
+		if err != nil {
+			return nil, false, "go-ldap DecodeControl: " + err.Error()
+		}
+		r := CtrlRec{Expire: -1, Grace: -1, ErrCode: -1}
+		switch v := c.(type) {
+		case *ldap.ControlPaging:
+			r.Kind, r.OID, r.PageSize, r.Cookie = "paging", oidPaging, v.PagingSize, v.Cookie
+		case *ldap.ControlBeheraPasswordPolicy:
+			r.Kind, r.OID, r.Expire, r.Grace, r.ErrCode = "behera", oidBehera, v.Expire, v.Grace, int64(v.Error)
+		case *ldap.ControlVChuPasswordMustChange:
+			r.Kind, r.OID = "vchumust", oidVChuMust
+		case *ldap.ControlVChuPasswordWarning:
+			r.Kind, r.OID, r.Expire = "vchuwarn", oidVChuWarn, v.Expire
+		case *ldap.ControlManageDsaIT:
+			r.Kind, r.OID, r.Crit = "manage", oidManage, v.Criticality
+		case *ldap.ControlMicrosoftNotification:
+			r.Kind, r.OID = "msnotif", oidMSNotif
+		case *ldap.ControlMicrosoftShowDeleted:
+			r.Kind, r.OID = "msshowdel", oidMSShowDel
+		case *ldap.ControlMicrosoftServerLinkTTL:
+			r.Kind, r.OID = "msttl", oidMSTTL
+		case *ldap.ControlString:
+			r.Kind, r.OID, r.Crit, r.Value, r.HasValue = "string", v.ControlType, v.Criticality, v.ControlValue, v.ControlValue != ""
+		default:
+			r.Kind, r.OID = fmt.Sprintf("%T", c), c.GetControlType()
+		}
+		recs = append(recs, r)
+	}
+	return recs, true, ""
 }
 
 // ---- generation ----------------------------------------------------------------
